@@ -425,7 +425,9 @@ func (g *gen) groupChars(n int) {
 		default:
 			step = fmt.Sprintf("charsto,0,%s", encInt(g.pos(cc)))
 		}
-		g.emit("prog", strings.Join([]string{g.editStep(t, o), step, "charcount,0", "string,1", "commit,1", "charcount,1"}, ";"))
+		ins := g.word(mode, 2)
+		g.emit("prog", strings.Join([]string{g.editStep(t, o), step, "charcount,0", "string,1", "commit,1", "charcount,1",
+			fmt.Sprintf("insert,1,%s,%s", encInt(g.pos(3)), encText(ins)), "commit,6", "string,6"}, ";"))
 	}
 	// exhaustive small: all texts of up to 3 clusters from a 4-cluster alphabet x positions
 	alpha := []string{"a", "é", "́", "\U0001F1E9"}
@@ -448,9 +450,69 @@ func (g *gen) groupChars(n int) {
 				if g.tier != "thorough" && !g.chance(0.12) {
 					continue
 				}
-				g.emit("prog", strings.Join([]string{g.editStep(t, rosed.Options{}), fmt.Sprintf("chars,0,%s,%s", encInt(a), encInt(b)), "string,1", "commit,1"}, ";"))
+				g.emit("prog", strings.Join([]string{g.editStep(t, rosed.Options{}), fmt.Sprintf("chars,0,%s,%s", encInt(a), encInt(b)), "string,1", "commit,1", "insert,1,0,58", "commit,4"}, ";"))
 			}
 		}
+	}
+}
+
+// nested selections with edits between selection and commit (C05)
+func (g *gen) groupCommit(n int) {
+	for i := 0; i < n; i++ {
+		mode := g.modeFor()
+		o, ls, ps := g.opts(mode)
+		t := g.text(mode, ls, ps)
+		st := []string{g.editStep(t, o)}
+		cur := 0
+		depth := 1 + g.r.Intn(4)
+		for d := 0; d < depth; d++ {
+			// select
+			switch g.r.Intn(6) {
+			case 0:
+				st = append(st, fmt.Sprintf("chars,%d,%s,%s", cur, encInt(g.pos(10)), encInt(g.pos(10))))
+			case 1:
+				st = append(st, fmt.Sprintf("charsfrom,%d,%s", cur, encInt(g.pos(10))))
+			case 2:
+				st = append(st, fmt.Sprintf("charsto,%d,%s", cur, encInt(g.pos(10))))
+			case 3:
+				st = append(st, fmt.Sprintf("lines,%d,%s,%s", cur, encInt(g.pos(3)), encInt(g.pos(3))))
+			case 4:
+				st = append(st, fmt.Sprintf("linesfrom,%d,%s", cur, encInt(g.pos(3))))
+			default:
+				st = append(st, fmt.Sprintf("linesto,%d,%s", cur, encInt(g.pos(3))))
+			}
+			cur = len(st) - 1
+			// edit (sometimes)
+			if g.chance(0.7) {
+				switch g.r.Intn(8) {
+				case 0:
+					st = append(st, fmt.Sprintf("insert,%d,%s,%s", cur, encInt(g.pos(5)), encText(g.word(mode, 3))))
+				case 1:
+					st = append(st, fmt.Sprintf("delete,%d,%s,%s", cur, encInt(g.pos(5)), encInt(g.pos(5))))
+				case 2:
+					st = append(st, fmt.Sprintf("overtype,%d,%s,%s", cur, encInt(g.pos(5)), encText(g.word(mode, 3))))
+				case 3:
+					st = append(st, fmt.Sprintf("wrap,%d,%d,%s", cur, g.width(), g.optsArg(o)))
+				case 4:
+					st = append(st, fmt.Sprintf("collapse,%d,%s", cur, g.optsArg(o)))
+				case 5:
+					st = append(st, fmt.Sprintf("align,%d,%d,%d,%s", cur, 1+g.r.Intn(3), g.width(), g.optsArg(o)))
+				case 6:
+					st = append(st, fmt.Sprintf("indent,%d,%d,%s", cur, 1+g.r.Intn(2), g.optsArg(o)))
+				default:
+					st = append(st, fmt.Sprintf("apply,%d,%d,%s", cur, g.r.Intn(7), g.optsArg(o)))
+				}
+				cur = len(st) - 1
+			}
+		}
+		st = append(st, fmt.Sprintf("string,%d", cur))
+		for d := 0; d < depth; d++ {
+			st = append(st, fmt.Sprintf("commit,%d", cur))
+			cur = len(st) - 1
+		}
+		st = append(st, fmt.Sprintf("commit,%d", cur)) // committing a root is the identity
+		st = append(st, fmt.Sprintf("commitall,%d", 1+g.r.Intn(len(st)-1)))
+		g.emit("prog", strings.Join(st, ";"))
 	}
 }
 
@@ -755,6 +817,8 @@ func cmdGen(group, tier string, seed int64) int {
 		g.groupRange()
 	case "A-chars":
 		g.groupChars(1500 * k)
+	case "A-commit":
+		g.groupCommit(2000 * k)
 	case "A-edit":
 		g.groupEdit(1500 * k)
 	case "A-lines":
